@@ -48,6 +48,13 @@ def rule_lay(S):
 
 def get_index(f, n):
     n = f.strip(n, casts=True)
+    for _ in range(3):   # look through const locals (`void* const block = std::get<1>(elem);`)
+        if n is not None and n['k'] == 'DeclRefExpr':
+            from yk.facts import const_local_init
+            ini = const_local_init(f, n.get('id'))
+            if ini is None:
+                break
+            n = f.strip(ini, casts=True)
     if n is not None and n['k'] in CALL_KINDS and (n.get('cq') or '') == 'std::get':
         m = re.match(r'std::get<(\d+)', n.get('callee') or '')
         if m:
@@ -134,7 +141,7 @@ def rule_sz(S):
     detail = ''
     for x in dels:
         a = call_args(d, x)
-        t = [term(d, y) for y in a]
+        t = [term(d, y, res=True) for y in a]
         al = t[2]
         if al[0] == 'var':
             ini = R.var_decl_init(d, next((v['id'] for z in d.all_nodes() if z['k'] == 'DeclStmt'
